@@ -47,6 +47,7 @@ type kase struct {
 	rounds []roundRec
 	class  string
 	accepts string
+	badFlag bool
 }
 
 func (w *world) snapshot(pos map[string]string) snap {
@@ -323,6 +324,7 @@ func runCase(k *kase, script []cmd, rng func(int) int, steps int) {
 	w.mu.Lock()
 	k.rounds = append([]roundRec(nil), w.rounds...)
 	hung := w.hung
+	k.badFlag = w.badFlag
 	if !accOK {
 		k.accepts = fmt.Sprintf("listener accepted %d connections, expected %d", w.accepts, 1+w.reachable)
 	}
@@ -339,6 +341,9 @@ func oracle(st *Stats, idx int, k *kase) {
 	fail := func(key, what string) { st.Fail(idx, key, what, h) }
 	if k.class == "hung" {
 		fail("hang", "an actor neither completed nor parked within the watchdog")
+	}
+	if k.badFlag {
+		fail("hook-flag", "a redial ran the PostDial hooks with isRedial=false")
 	}
 	if k.accepts != "" {
 		fail("accepts", k.accepts)
